@@ -108,8 +108,9 @@ def families(w, tier):
     # segment in a page whose index is a multiple of 64 (the low pages and the far page meet in the page table / cache)
     P = 1 << 14
     big_far = (1 << 40) if w == 64 else (1 << 26)   # (above 2^24: no explicit flat window reaches it, the default window stays hybrid)
-    segs, pos, alph, fixed = sparse_program_space(w, big_far, tier)
-    fam[f'biglow-{big_far}'] = ([(0, 6 + 3 * P), (big_far, 4)], pos, alph, fixed, big_far)
+    if w >= 32:   # (the 2^16-bit address space holds 4096 words: no room for three pages)
+        segs, pos, alph, fixed = sparse_program_space(w, big_far, tier)
+        fam[f'biglow-{big_far}'] = ([(0, 6 + 3 * P), (big_far, 4)], pos, alph, fixed, big_far)
     dw = 2 * w
     if w == 64:
         # words equal to the flat fill constant: as flip word, jump word, flip target, and a word
